@@ -333,6 +333,27 @@ def check(prog, rep, tier):
         else:
             rep.undecided('R08.c', key, file=f.file, line=f.node.lineno, found='no returning path')
 
+    # ---------------------------------------------------------------- R08.e no element is skipped silently
+    nskip = 0
+    for f in funcs:
+        for lp in [n for n in ast.walk(f.node) if isinstance(n, (ast.For, ast.While))]:
+            for t in [n for n in ast.walk(ast.Module(body=lp.body, type_ignores=[])) if isinstance(n, ast.Try)]:
+                for h in t.handlers:
+                    hb = ast.Module(body=h.body, type_ignores=[])
+                    leaves = any(isinstance(x, (ast.Raise, ast.Return)) for x in ast.walk(hb))
+                    skips = any(isinstance(x, ast.Continue) for x in ast.walk(hb)) or \
+                        all(isinstance(x, (ast.Pass, ast.Expr)) for x in h.body)
+                    if not leaves and skips:
+                        nskip += 1
+                        key = 'silent-skip:%s:%d' % (f.qualname, nskip)
+                        rep.bad('R08.e', 'silent-skip:%s' % f.qualname, file=f.file, line=h.lineno, func=f.qualname,
+                                found='an element that cannot be encoded is skipped (except ... continue / pass) inside '
+                                      'the loop at line %d: what was already emitted for it stays in the output and the '
+                                      'caller is told nothing' % lp.lineno,
+                                expected='raise, so that the message is not sent', key='silent-skip:%s' % f.qualname)
+    if not nskip:
+        rep.ok('R08.e', 'no-silent-skip', found='%d construct functions scanned' % len(funcs))
+
     # ---------------------------------------------------------------- R08.c stale accumulators
     sa_sites = stale_accumulators(prog, funcs)
     for f, loop, name, line in sa_sites:
